@@ -1,7 +1,7 @@
 //! The tokio-hosted receiver (`emit_batcher::tokio::spawn`) on a *real* tokio runtime, with the async and blocking entry
 //! points called from real callers. Real tokio threads cannot be scheduled by the simulator, so - like the
 //! calling-context probes - these are probes whose verdict does not depend on the schedule: every rule below is about
-//! content, order and "finished before flush said so", with waits that are either finite work or bounded by a minute
+//! content, order and "finished before flush said so", with waits that are either finite work or bounded by half a minute
 //! of wall-clock time. The seed decides the workload, the processor's outcome script and which entry point each
 //! operation uses; the interleaving with the receiver's thread is the operating system's and is not part of the history
 //! hash. What this adds over the simulated engines: `tokio::spawn` itself (runtime construction, the sleep closure), the
@@ -27,7 +27,7 @@ use crate::{
 
 pub struct TokioReceiver;
 
-const LONG: Duration = Duration::from_secs(60);
+const LONG: Duration = Duration::from_secs(30);
 
 #[derive(Default)]
 struct Log {
@@ -93,7 +93,7 @@ impl Engine for TokioReceiver {
     }
 
     fn rule(&self) -> &'static str {
-        "probes on real tokio threads: one run = 1-14 items through a channel whose receiver was started with emit_batcher::tokio::spawn, sent through send / tokio::send / blocking_send (from a plain thread or a multi-thread worker) and flushed through tokio::flush / blocking_flush (plain thread, multi-thread worker, current-thread runtime), against a scripted processor (ok, pending, failure, panic in the call or in the future, at most one retry with a suffix remainder); judged: exactly-once in order, retry carries the remainder, flush true only when everything sent before has finished, flush and lossless sends succeed within a minute, the worker thread ends when the sender is dropped; the schedule is not controlled and not part of the history hash"
+        "probes on real tokio threads: one run = 1-14 items through a channel whose receiver was started with emit_batcher::tokio::spawn, sent through send / tokio::send / blocking_send (from a plain thread or a multi-thread worker) and flushed through tokio::flush / blocking_flush (plain thread, multi-thread worker, current-thread runtime), against a scripted processor (ok, pending, failure, panic in the call or in the future, at most one retry with a suffix remainder); judged: exactly-once in order, retry carries the remainder, flush true only when everything sent before has finished, flush and lossless sends succeed within half a minute, the worker thread ends when the sender is dropped; the schedule is not controlled and not part of the history hash"
     }
 
     fn shard_over_processes(&self) -> bool {
@@ -234,16 +234,16 @@ impl Engine for TokioReceiver {
                     Op::AsyncSend => crt
                         .block_on(emit_batcher::tokio::send(&*sender, next + 1, LONG))
                         .map(|_| None)
-                        .map_err(|_| "tokio::send with a minute to spare and a running receiver returned an error".to_string()),
+                        .map_err(|_| "tokio::send with half a minute to spare and a running receiver returned an error".to_string()),
                     Op::BlockingSend => emit_batcher::blocking_send(&*sender, next + 1, LONG)
                         .map(|_| None)
-                        .map_err(|_| "blocking_send with a minute to spare and a running receiver returned an error".to_string()),
+                        .map_err(|_| "blocking_send with half a minute to spare and a running receiver returned an error".to_string()),
                     Op::BlockingSendFromWorker => {
                         let s = sender.clone();
                         let item = next + 1;
                         mrt.block_on(async move { tokio::spawn(async move { emit_batcher::blocking_send(&*s, item, LONG).is_ok() }).await })
                             .map_err(|e| format!("the task calling blocking_send failed: {e}"))
-                            .and_then(|ok| if ok { Ok(None) } else { Err("blocking_send from a multi-thread worker with a minute to spare returned an error".to_string()) })
+                            .and_then(|ok| if ok { Ok(None) } else { Err("blocking_send from a multi-thread worker with half a minute to spare returned an error".to_string()) })
                     }
                     Op::AsyncFlush => Ok(Some(crt.block_on(emit_batcher::tokio::flush(&*sender, LONG)))),
                     Op::BlockingFlush => Ok(Some(emit_batcher::blocking_flush(&*sender, LONG))),
@@ -274,7 +274,7 @@ impl Engine for TokioReceiver {
                 Ok(Ok(Some(flushed))) => {
                     trace.push(format!("{op:?} -> {flushed}"));
                     if !flushed {
-                        problems.push(("C08", "tokio_receiver_flush_timed_out", format!("{op:?} with a minute to spare, a running receiver and finite work returned false")));
+                        problems.push(("C08", "tokio_receiver_flush_timed_out", format!("{op:?} with half a minute to spare, a running receiver and finite work returned false")));
                         break;
                     }
                     let l = log.lock().unwrap();
@@ -301,7 +301,7 @@ impl Engine for TokioReceiver {
         match rx.recv_timeout(LONG) {
             Ok(true) => {}
             Ok(false) => problems.push(("C08", "tokio_receiver_thread_panicked", "the worker thread started by tokio::spawn ended with a panic".into())),
-            Err(_) => problems.push(("C08", "tokio_receiver_did_not_terminate", "a minute after the last sender was dropped the worker thread started by tokio::spawn was still running".into())),
+            Err(_) => problems.push(("C08", "tokio_receiver_did_not_terminate", "half a minute after the last sender was dropped the worker thread started by tokio::spawn was still running".into())),
         }
         {
             let mut l = log.lock().unwrap();
